@@ -43,7 +43,7 @@ fn main() {
             let line = dec(f[1]);
             let segs = parser_line::line_to_cmds(&line);
             if segs.len() != 1 {
-                return format!("segs={}", segs.len());
+                return format!("segs={} echo={}", segs.len(), q(&line));
             }
             let toks = parser_line::parse_line(&segs[0]).tokens;
             let mut sh = Shell::new();
@@ -60,16 +60,16 @@ fn main() {
                 }
                 Err(_) => "N".to_string(),
             };
-            format!("segs=1 toks={} exp={} argv={}", tokens_str(&toks), tokens_str(&exp), argv)
+            format!("segs=1 toks={} exp={} argv={} echo={}", tokens_str(&toks), tokens_str(&exp), argv, q(&line))
         }
         // splitting and tokenizing only (lines whose expansion may run commands or not terminate)
         "rtk" => {
             let line = dec(f[1]);
             let segs = parser_line::line_to_cmds(&line);
             if segs.len() != 1 {
-                return format!("segs={}", segs.len());
+                return format!("segs={} echo={}", segs.len(), q(&line));
             }
-            format!("segs=1 toks={}", tokens_str(&parser_line::parse_line(&segs[0]).tokens))
+            format!("segs=1 toks={} echo={}", tokens_str(&parser_line::parse_line(&segs[0]).tokens), q(&line))
         }
         _ => "?bad-case".to_string(),
     });
